@@ -756,15 +756,15 @@ theorem idle_not_took (t : Thread) (h : t.idle = true) : t.took = false := by
 /-! ### an authorization code is burned by every finished redemption attempt -/
 
 theorem stepBurn_code_done (cfg : Cfg) (st : Store) (now : Nat) (lock : Option Nat) (i : Nat) (r : BurnReq) (pc : BurnPc) (o : Outcome)
-    (hc : r.kind = .code) (h : (stepBurn cfg st now lock i r pc).1 = .done o) :
+    (hc : r.kind = .code) (hf : r.failDel = false) (h : (stepBurn cfg st now lock i r pc).1 = .done o) :
     pc = .done o ∨ (stepBurn cfg st now lock i r pc).2.1 = stErase st r.key := by
   have ha : ∀ v, afterGad r v ≠ .done o := by intro v; simp [afterGad, hc]
   cases pc <;> simp only [stepBurn] at h ⊢ <;> (repeat' split at h) <;> simp_all
 
-/-- every finished authorization-code request has left the store without the code -/
+/-- every finished authorization-code request (whose Deletes reached the store) has left the store without the code -/
 def CInv (w : World) : Prop :=
   ∀ (j : Nat) (r : BurnReq) (o : Outcome) (f : Nat), w.ths[j]? = some (Thread.burn r (.done o) f) → r.kind = .code →
-    stFind w.store r.key = none
+    r.failDel = false → stFind w.store r.key = none
 
 theorem CInv_applyEv (cfg : Cfg) (w : World) (ev : Ev) (inv : CInv w) : CInv (applyEv cfg w ev) := by
   cases ev with
@@ -775,7 +775,7 @@ theorem CInv_applyEv (cfg : Cfg) (w : World) (ev : Ev) (inv : CInv w) : CInv (ap
     | none => exact inv
     | some t =>
       simp only
-      intro j r o f h hc
+      intro j r o f h hc hf
       have hkeep : stFind w.store r.key = none → stFind (stepThread cfg w.store w.now w.lock i t).2.1 r.key = none := by
         intro hn
         rcases stepThread_burnKey cfg w.store w.now w.lock i t r.key r.kind rfl with h1 | h1
@@ -788,11 +788,11 @@ theorem CInv_applyEv (cfg : Cfg) (w : World) (ev : Ev) (inv : CInv w) : CInv (ap
           simp only [stepThread] at he ⊢
           injection he with h1 h2 h3
           subst h1
-          rcases stepBurn_code_done cfg w.store w.now w.lock i r pc' o hc h2.symm with h4 | h4
+          rcases stepBurn_code_done cfg w.store w.now w.lock i r pc' o hc hf h2.symm with h4 | h4
           · subst h4
-            exact hkeep (inv i r o f' (by rw [hi]) hc)
+            exact hkeep (inv i r o f' (by rw [hi]) hc hf)
           · rw [h4]; exact stFind_erase_self _ _
-      · exact hkeep (inv j r o f he hc)
+      · exact hkeep (inv j r o f he hc hf)
 
 theorem CInv_run (cfg : Cfg) (s : List Ev) (w : World) (inv : CInv w) : CInv (run cfg s w) := by
   induction s generalizing w with
@@ -1094,5 +1094,76 @@ theorem noSplitB_iff (cfg : Cfg) (w : World) (s : List Ev) : noSplitB cfg w s = 
   | cons ev s ih =>
     simp only [noSplitB, NoSplit, Bool.and_eq_true]
     rw [midOk_iff, ih]
+
+
+/-! ### store faults fail closed -/
+
+/-- the request has a store fault that hits its consume step -/
+def Thread.faulty : Thread → Bool
+  | .burn r _ _ => r.failGet
+  | .mark r _ _ => r.failGet || r.failSet
+
+/-- not honoured, and not on a path that can still be honoured -/
+def Thread.safe : Thread → Bool
+  | .burn r pc f => (Thread.burn r pc f).idle
+  | .mark r pc _ =>
+    match pc with
+    | .done .ok => false
+    | .atPut _ => !r.failGet
+    | _ => true
+
+theorem stepThread_faulty_safe (cfg : Cfg) (st : Store) (now : Nat) (lock : Option Nat) (i : Nat) (t : Thread)
+    (hf : t.faulty = true) (hs : t.safe = true) :
+    (stepThread cfg st now lock i t).1.faulty = true ∧ (stepThread cfg st now lock i t).1.safe = true := by
+  cases t with
+  | burn r pc f =>
+    have ha : (afterGad r none).took = false := by rw [afterGad_took]; rfl
+    have hb : ∀ v, afterGad r none ≠ .atDel v := by intro v; unfold afterGad; split <;> simp
+    simp only [Thread.faulty] at hf
+    refine ⟨by simp [stepThread, Thread.faulty, hf], ?_⟩
+    cases pc <;> simp only [stepThread, stepBurn, hf] <;> (repeat' split) <;>
+      simp_all [Thread.safe, Thread.idle, Thread.took, Outcome.took]
+    all_goals
+      generalize hg : afterGad r none = pc' at ha hb
+      cases pc' <;> simp_all [BurnPc.took, Outcome.took]
+  | mark r pc f =>
+    simp only [Thread.faulty] at hf
+    refine ⟨by simp [stepThread, Thread.faulty, hf], ?_⟩
+    cases hg : r.failGet <;> cases hs' : r.failSet <;> cases pc <;> simp only [stepThread, stepMark, hg, hs'] <;>
+      (repeat' split) <;> simp_all [Thread.safe]
+
+theorem faulty_safe_run (cfg : Cfg) (i : Nat) (s : List Ev) (w : World)
+    (h : ∀ t, w.ths[i]? = some t → t.faulty = true ∧ t.safe = true) :
+    ∀ t, (run cfg s w).ths[i]? = some t → t.faulty = true ∧ t.safe = true := by
+  induction s generalizing w with
+  | nil => exact h
+  | cons ev s ih =>
+    apply ih
+    cases ev with
+    | tick dt => exact h
+    | step j =>
+      simp only [applyEv, stepW]
+      cases hj : w.ths[j]? with
+      | none => exact h
+      | some tj =>
+        simp only
+        intro t ht
+        rcases getElem?_set_cases _ _ _ _ _ ht with ⟨hij, he⟩ | ⟨_, he⟩
+        · subst hij; subst he
+          obtain ⟨h1, h2⟩ := h tj hj
+          exact stepThread_faulty_safe cfg _ _ _ _ tj h1 h2
+        · exact h t he
+
+theorem safe_not_won (t : Thread) (h : t.safe = true) : t.won = false ∧ t.took = false := by
+  cases t with
+  | burn r pc f =>
+    have := idle_not_took _ (by simpa [Thread.safe] using h)
+    refine ⟨?_, this⟩
+    cases pc <;> simp_all [Thread.won, Thread.outcome, Thread.took, Outcome.took]
+    rename_i o; cases o <;> simp_all
+  | mark r pc f =>
+    refine ⟨?_, rfl⟩
+    cases pc <;> simp_all [Thread.safe, Thread.won, Thread.outcome]
+    rename_i o; cases o <;> simp_all
 
 end Nuts.C05
